@@ -132,9 +132,10 @@ fn lifecycle(kind: &str) -> String {
     let res = match kind {
         "ticks-without-manual" => {
             pb.enable_steady_tick(Duration::from_millis(2));
-            std::thread::sleep(Duration::from_millis(120));
+            let t = Instant::now();
+            while rec.flushes() < 3 && t.elapsed() < Duration::from_secs(3) { std::thread::sleep(Duration::from_millis(5)); }
             let n = rec.flushes();
-            if n >= 3 { "ok".to_string() } else { format!("FAIL ticker-does-not-tick only {n} frames in 120 ms at a 2 ms interval") }
+            if n >= 3 { "ok".to_string() } else { format!("FAIL ticker-does-not-tick only {n} frames in 3 s at a 2 ms interval") }
         }
         // a ticker is (re-)installed on a bar whose earlier ticker has stopped by itself (finish), was disabled, or is still
         // running with the same interval: in every case the bar is redrawn without manual ticks afterwards
@@ -148,9 +149,11 @@ fn lifecycle(kind: &str) -> String {
             }
             pb.enable_steady_tick(Duration::from_millis(2));
             let n0 = rec.flushes();
-            std::thread::sleep(Duration::from_millis(150));
+            // three frames are due after 6 ms; a loaded machine gets up to 3 s for them
+            let t = Instant::now();
+            while rec.flushes() - n0 < 3 && t.elapsed() < Duration::from_secs(3) { std::thread::sleep(Duration::from_millis(5)); }
             let n = rec.flushes() - n0;
-            if n >= 3 { "ok".to_string() } else { format!("FAIL ticker-does-not-tick {kind}: only {n} frames in 150 ms after enable_steady_tick(2 ms)") }
+            if n >= 3 { "ok".to_string() } else { format!("FAIL ticker-does-not-tick {kind}: only {n} frames in 3 s after enable_steady_tick(2 ms)") }
         }
         "manual-tick-noop" => {
             pb.enable_steady_tick(Duration::from_secs(3600));
